@@ -14,7 +14,7 @@ let calc_twa vs n =
   then None
   else if Z.ltb (zlen vs) n
        then None
-       else Some (Z.div (Z.modulo (zsum (firstn (Z.to_nat n) vs)) two64) n)
+       else Some (Z.div (zsum (firstn (Z.to_nat n) vs)) n)
 
 (** val wrap_idx : coq_Z -> coq_Z -> coq_Z **)
 
@@ -59,8 +59,14 @@ let update_tail n rate = function
   else Ok (Some tw)
 | None ->
   if Z.gtb rate Z0
-  then Ok (Some { vals = (rate :: []); idx = (Zpos Coq_xH); avg = Z0;
-         active = false; disc = (Zneg Coq_xH) })
+  then if Z.geb (Zpos Coq_xH) n
+       then (match calc_twa (rate :: []) n with
+             | Some a ->
+               Ok (Some { vals = (rate :: []); idx = Z0; avg = a; active =
+                 true; disc = (Zneg Coq_xH) })
+             | None -> Panic)
+       else Ok (Some { vals = (rate :: []); idx = (Zpos Coq_xH); avg = Z0;
+              active = false; disc = (Zneg Coq_xH) })
   else Ok None
 
 (** val update :
@@ -293,13 +299,3 @@ let holds_C17_state n g last_positive = function
      then Z.eqb tw.avg (Z.div (zsum (firstn (Z.to_nat n) g.g_hist)) n)
      else true)
 | None -> negb g.g_exists
-
-(** val kf_C17_1 : coq_Z -> bool **)
-
-let kf_C17_1 n =
-  Z.eqb n (Zpos Coq_xH)
-
-(** val kf_C17_2 : coq_Z -> ghost -> bool **)
-
-let kf_C17_2 n g =
-  Z.geb (zsum (firstn (Z.to_nat n) g.g_hist)) two64
